@@ -11,6 +11,7 @@ let eq_for mode : int -> int -> bool =
   else if mode = -2 then (fun a b -> a < b)
   else if mode = -3 then (fun a b -> a <= b)
   else if mode = -4 then (fun a b -> a = b && a <> 3)
+  else if mode = -5 then (fun a b -> a <> 3 && b <> 3 && (a = b || (a <= 1 && b <= 1)))   (* == on floats: 0 = +0, 1 = -0, 3 = NaN *)
   else (fun a b -> a = b)
 
 let op_char o = Char.chr (int_of_z (M.op_code o))
@@ -65,6 +66,65 @@ let eval inp =
      | M.EPanic -> "PANIC index"
      | M.EOutOfFuel -> "FUEL")
 
+
+(* ---- L lines (harness/cmd/edittrace/long.go): typed, long, poisoned; bounded output ---- *)
+let fnv64 s =
+  let h = ref 0xcbf29ce484222325L in
+  String.iter (fun c -> h := Int64.mul (Int64.logxor !h (Int64.of_int (Char.code c))) 0x100000001b3L) s;
+  Printf.sprintf "%Lx" !h
+let seq (xs : int list) =
+  let a = Array.of_list xs in
+  let n = Array.length a in
+  let ix = List.sort_uniq compare (List.filter (fun c -> c >= 0 && c < n) [0; 1; 2; n / 2 - 1; n / 2; n / 2 + 1; n - 3; n - 2; n - 1]) in
+  Printf.sprintf "%d:%s:%s" n (fnv64 (str_ints xs)) (str_ints (List.map (fun i -> a.(i)) ix))
+
+type lline = { mode : int; l : int list; r : int list; lx : int list; rx : int list;
+               larr : int list; rarr : int list; same : bool;
+               lbase : int; rbase : int  (* index of lhs[0] / rhs[0] in its array *) }
+let parse_l inp =
+  match words inp with
+  | ["L"; mode; _; "E"; l; r; lx; rx] ->
+    let l = ints_of l and r = ints_of r and lx = ints_of lx and rx = ints_of rx in
+    Some { mode = int_of_string mode; l; r; lx; rx; larr = [555; 555] @ l @ lx; rarr = [666; 666] @ r @ rx; same = false; lbase = 2; rbase = 2 }
+  | ["L"; mode; _; "A"; arr; a; b; c; d; cl] ->
+    let arr = ints_of arr and a = int_of_string a and b = int_of_string b
+    and c = int_of_string c and d = int_of_string d in
+    let win lo hi = take (hi - lo) (drop lo arr) in
+    let extra hi = if cl = "1" then [] else drop hi arr in
+    Some { mode = int_of_string mode; l = win a b; r = win c d; lx = extra b; rx = extra d; larr = arr; rarr = arr; same = true; lbase = a; rbase = c }
+  | _ -> None
+
+(* what the script's X and Y read once every element of the arrays has been overwritten *)
+let poison_l = 500 and poison_r = 700
+let show_long (q : lline) (es : int M.edit list) =
+  let lcap = List.length q.l + List.length q.lx and rcap = List.length q.r + List.length q.rx in
+  let lp = ref 0 and rp = ref 0 in
+  let eds = if es = [] then "." else
+    String.concat ";" (List.map (fun (e : int M.edit) ->
+      let nx = List.length e.M.x and ny = List.length e.M.y in
+      let xo = if nx = 0 then "-" else Printf.sprintf "%d/%d" !lp (lcap - !lp) in
+      let yo = if ny = 0 then "-" else Printf.sprintf "%d/%d" !rp (rcap - !rp) in
+      let s = Printf.sprintf "%c:%s:%d:%s:%d" (op_char e.M.eop) xo nx yo ny in
+      (match e.M.eop with
+       | M.Emit -> lp := !lp + nx; rp := !rp + nx
+       | _ -> lp := !lp + nx; rp := !rp + ny);
+      s) es) in
+  let xs = List.concat_map (fun (e : int M.edit) -> e.M.x) es and ys = List.concat_map (fun (e : int M.edit) -> e.M.y) es in
+  let py = if q.same then poison_l else poison_r in
+  String.concat " / " [eds; seq xs; seq ys; seq q.larr; seq q.rarr;
+                       seq (List.map (fun v -> v + poison_l) xs); seq (List.map (fun v -> v + py) ys)]
+
+let eval_l inp =
+  match parse_l inp with
+  | None -> "?"
+  | Some q ->
+    (match M.edit_script_run_cap (eq_for q.mode) q.lx q.rx q.l q.r with
+     | M.EOk es -> show_long q es
+     | M.EPanic -> "PANIC index"
+     | M.EOutOfFuel -> "FUEL")
+
+let eval inp = if String.length inp > 1 && inp.[0] = 'L' then eval_l inp else eval inp
+
 (* "<edits> / <lhs> / <rhs>" *)
 let split3 out =
   match Str.split_delim (Str.regexp_string " / ") out with
@@ -110,44 +170,86 @@ let lcs_len eq l r =
   done;
   t.(m).(n)
 
+(* the clauses of C11 on a script given as values, with the places its X and Y alias *)
+let check_script eq l r (parsed : (int M.edit * string * string) list) =
+  let es = List.map (fun (e, _, _) -> e) parsed in
+  let same (a : int) (b : int) = (a = b) in
+  if not (M.valid_script_gen eq same l r es) then
+    Some "executing the edits does not consume lhs and produce rhs with X/Y the spans at the current offsets"
+  else if List.exists (fun (_, xo, yo) -> xo = "?" || yo = "?") parsed
+       || List.map (fun (_, xo, yo) -> (strip_cap xo, strip_cap yo)) parsed
+          <> offsets_of es then
+    Some "an X or Y is not the sub-slice of its input at the current offset (aliasing)"
+  else if not (M.canonical es) then
+    Some "not canonical: an empty edit, two adjacent edits of one kind, or a Drop next to a Copy"
+  else if not (M.alternating es) then
+    Some "not canonical: Emit and non-Emit edits do not alternate (an unfused Replace next to a Drop/Copy)"
+  else begin
+    let same_inputs = M.eq_lists eq l r in
+    if (es = []) <> same_inputs then
+      Some (if es = [] then "empty script although lhs and rhs differ" else "non-empty script although lhs equals rhs")
+    else begin
+      let k = int_of_nat (M.kept (M.expand l es)) and opt = lcs_len eq l r in
+      if k <> opt then Some (Printf.sprintf "script keeps %d elements, a longest common subsequence has %d" k opt)
+      else begin
+        let c = int_of_nat (M.cost (M.expand l es)) in
+        let least = List.length l + List.length r - 2 * opt in
+        if c <> least then Some (Printf.sprintf "script removes + inserts %d elements, %d suffice" c least)
+        else None
+      end
+    end
+  end
+
+(* L lines: the script is given by places and lengths; the values it holds are those of the spans
+   it aliases -- checked through the digests of everything X and Y read, before and after the
+   arrays were overwritten *)
+let spec_l (q : lline) out =
+  if String.length out >= 5 && String.sub out 0 5 = "PANIC" then Some "EditScript panicked" else
+  match Str.split_delim (Str.regexp_string " / ") out with
+  | [eds; xs; ys; la; ra; xs2; ys2] ->
+    (try
+      if la <> seq q.larr || ra <> seq q.rarr then raise (Bad "an input (or what lies before / behind it in its array) was modified by the call");
+      let la = Array.of_list q.l and ra = Array.of_list q.r in
+      let span what a off len =
+        if len = 0 then (if off <> "-" then raise (Bad "bad edit syntax") else [])
+        else match int_of_string_opt (strip_cap off) with
+          | Some o when o >= 0 && o + len <= Array.length a -> Array.to_list (Array.sub a o len)
+          | Some _ -> raise (Bad (Printf.sprintf "%s reaches beyond its input (it exposes the spare capacity or a neighbour)" what))
+          | None -> raise (Bad (Printf.sprintf "%s is not a sub-slice of its input (the script does not share storage with it)" what)) in
+      let parsed =
+        if eds = "." then [] else
+        List.map (fun item ->
+          match String.split_on_char ':' item with
+          | [o; xo; xl; yo; yl] when String.length o = 1 ->
+            (match op_of_char o.[0] with
+             | Some op -> ({ M.eop = op; M.x = span "an X" la xo (int_of_string xl); M.y = span "a Y" ra yo (int_of_string yl) }, xo, yo)
+             | None -> raise (Bad ("unknown Op byte " ^ o)))
+          | _ -> raise (Bad ("bad edit syntax " ^ item))) (String.split_on_char ';' eds) in
+      let allx = List.concat_map (fun ((e : int M.edit), _, _) -> e.M.x) parsed
+      and ally = List.concat_map (fun ((e : int M.edit), _, _) -> e.M.y) parsed in
+      if xs <> seq allx || ys <> seq ally then raise (Bad "the elements read through X / Y are not those of the spans of lhs / rhs they point at");
+      let py = if q.same then poison_l else poison_r in
+      if xs2 <> seq (List.map (fun v -> v + poison_l) allx) || ys2 <> seq (List.map (fun v -> v + py) ally) then
+        raise (Bad "after the inputs were overwritten the script does not show their new contents (it does not share storage with them)");
+      check_script (eq_for q.mode) q.l q.r parsed
+    with Bad m -> Some m)
+  | _ -> Some "bad output syntax"
+
 let spec prop inp out =
-  match prop, parse_input inp with
-  | "C11", Some (mode, l, r, _, _, la0, ra0) when mode >= 0 || mode = -4 ->
+  if prop <> "C11" then None else
+  match parse_l inp with
+  | Some q -> if q.mode >= 0 || q.mode = -4 || q.mode = -5 then spec_l q out else None
+  | None ->
+  match parse_input inp with
+  | Some (mode, l, r, _, _, la0, ra0) when mode >= 0 || mode = -4 ->
     let eq = eq_for mode in
     if String.length out >= 5 && String.sub out 0 5 = "PANIC" then Some "EditScript panicked" else
     (match split3 out with
      | None -> Some "bad output syntax"
      | Some (eds, la, ra) ->
        (try
-         let parsed = parse_edits eds in
-         let es = List.map (fun (e, _, _) -> e) parsed in
-         let same (a : int) (b : int) = (a = b) in
          if la <> la0 || ra <> ra0 then Some "an input (or what lies before / behind it in its array) was modified by the call"
-         else if not (M.valid_script_gen eq same l r es) then
-           Some "executing the edits does not consume lhs and produce rhs with X/Y the spans at the current offsets"
-         else if List.exists (fun (_, xo, yo) -> xo = "?" || yo = "?") parsed
-              || List.map (fun (_, xo, yo) -> (strip_cap xo, strip_cap yo)) parsed
-                 <> offsets_of es then
-           Some "an X or Y is not the sub-slice of its input at the current offset (aliasing)"
-         else if not (M.canonical es) then
-           Some "not canonical: an empty edit, two adjacent edits of one kind, or a Drop next to a Copy"
-         else if not (M.alternating es) then
-           Some "not canonical: Emit and non-Emit edits do not alternate (an unfused Replace next to a Drop/Copy)"
-         else begin
-           let same_inputs = M.eq_lists eq l r in
-           if (es = []) <> same_inputs then
-             Some (if es = [] then "empty script although lhs and rhs differ" else "non-empty script although lhs equals rhs")
-           else begin
-             let k = int_of_nat (M.kept (M.expand l es)) and opt = lcs_len eq l r in
-             if k <> opt then Some (Printf.sprintf "script keeps %d elements, a longest common subsequence has %d" k opt)
-             else begin
-               let c = int_of_nat (M.cost (M.expand l es)) in
-               let least = List.length l + List.length r - 2 * opt in
-               if c <> least then Some (Printf.sprintf "script removes + inserts %d elements, %d suffice" c least)
-               else None
-             end
-           end
-         end
+         else check_script eq l r (parse_edits eds)
        with Bad m -> Some m))
   | _ -> None
 
